@@ -65,6 +65,7 @@ def run(tier):
         b, info = behav.relayclient(wd, nr, lmtp, pipe, False, hs=hs)
         sets.append({'nr': nr, 'lmtp': lmtp, 'pipe': pipe, 'behaviours': b, 'hs': hs})
         infos.append(info)
+    extra_cov = {'model_replay': infos}
     behfile = os.path.join(wd, 'relayclient_behaviours.json')
     behav.save(behfile, sets)
     PR_CFG = """SPECIFICATION Spec
@@ -94,7 +95,7 @@ CHECK_DEADLOCK FALSE
                 # the stalls of C14 (every stage of the SMTP / LMTP conversation, pipe children that outlive their time limit with
                 # 1-3 recipients, an HTTP peer that never answers) judged by the C11 clauses: what was not delivered in time is not delivered
                 {'driver': 'c14r', 'module': 'Trace_Relay', 'cfg': 'Trace_Relay.cfg'}],
-        extra_cov={'model_replay': infos},
+        extra_cov=extra_cov, post=__import__('harness.httpd', fromlist=['post_hook']).post_hook(extra_cov),
         level='model_checking',
         rule='downstream scripts for the real StaticSmtpRelay and StaticLmtpRelay: a deviating reply class {4xx, 5xx, '
              'malformed, disconnect} at every single stage (banner, EHLO incl. 500->HELO fallback, MAIL, each RCPT, DATA, '
